@@ -20,12 +20,12 @@ NA = {
 CHECKS = {
  "C04": dict(
   engine="cli-sim", category="exploration", design_ref="DESIGN.md 4.4",
-  technique="deterministic simulation of the run loop of main(): seeded/enumerated file sequences, argument vs glob-seam order permutations, fatal file mid-run, I/O faults at the read seam; oracle = executable model M-run over each file's outcome alone",
+  technique="deterministic simulation of the run loop of main(): seeded/enumerated file sequences, argument vs glob-seam order permutations, fatal file mid-run, I/O faults at the read seam, stub git peer (--use-gitignore), strict UTF-8 stdout, value-taking options before the paths; oracle = executable model M-run over each file's outcome alone",
   text="The real main() runs in a forked child on a scratch tree; the simulator chooses the sequence of files (all 341 class sequences of length 0..4 over {clean, notice-only, erroneous, fatal} x 3 modes are executed, longer sequences and all orders of sampled multisets are seeded), the order in which a directory's files are processed (explicit permutations of the glob seam) and, in a separate configuration, a failing open(). M-run predicts the multiset of verdict lines and the exit status from each file's measured outcome alone. The bounded part (length <= 4) is exhaustive over class sequences, sampled over concrete files.",
   note="Trusted: in-process main() with SystemExit captured stands for the process (fidelity sample against a real `python -m norminette` subprocess in every run); M-run says nothing when a selected file alone ends in an internal error or hang (C05's matter). Sampling beyond length 4."),
  "C05": dict(
   engine="read-fault-sim", category="fault_enumeration", design_ref="DESIGN.md 4.5",
-  technique="deterministic simulation with fault injection at the read seam: every token-boundary short read, every single-token loss, torn/corrupt/undecodable reads, tokenizer alone on exhaustive short strings and long runs; liveness decided on a simulated tick clock",
+  technique="deterministic simulation with fault injection at the read seam: every token-boundary short read, every single-token loss, torn/corrupt/undecodable reads, tokenizer alone on exhaustive short strings and long runs, deep/long structure chains, CLI level with stdout closed or strict; liveness decided on a simulated tick clock",
   text="norminette.file.open is a seam that delivers a prefix, a torn or a corrupted version of each workload program; for every workload program and both file types EVERY token boundary (short read) and every single-token deletion is executed, plus mid-token cuts, seeded replace/insert/swap/pair edits, byte flips, non-ASCII and invalid UTF-8. Time is a tick counter on Context.peek_token / Lexer.raw_peek / Registry.run_rules with a no-progress deadline of 1000*(tokens+50) ticks, so hangs are decided in simulated time and reported with their call site. Outcome must be verdict or CParsingError; at CLI level an integer status and a report or fatal line. Fault points are enumerated per program; programs are sampled.",
   note="Trusted: tick-clock wrappers do not change behaviour; deadline calibrated with >10x headroom (max observed ratio is reported). Loops that do not tick are caught by a wall backstop that never converts a slow-but-advancing run into a hang (such runs are reported as inconclusive 'slow'). The oracle does not say which of verdict/fatal a damaged file gets."),
  "C07": dict(
@@ -35,14 +35,14 @@ CHECKS = {
   note="'Unrecognisable' is measured by the monitor, not assumed. I4 asserted for default options only. Boundaries are enumerated per base program; base programs and (in the quick tier) fragments are sampled."),
  "C08": dict(
   engine="cli-sim+wellformedness-monitor", category="exploration", design_ref="DESIGN.md 4.8",
-  technique="deterministic simulation varying the emission order of diagnostics (explicit permutations of Errors._inner before formatting), the output format and input damage; well-formedness monitor on every printed report",
+  technique="deterministic simulation varying the emission order of diagnostics (explicit permutations of Errors._inner before formatting), the output format and input damage, runs selecting no source, files with >1000 diagnostics, directory names that are not valid UTF-8; well-formedness monitor on every printed report",
   text="Every report printed by a simulated run is checked for W1 (catalogue code/text, level, position inside the delivered content) and W2 (ascending printed positions); each run is paired with its -f json twin (W3: stdout is one JSON document describing the same files, verdicts, diagnostics, order) and re-run under K explicit permutations of the diagnostics' emission order (W4: report identical up to ties of equal position and code). Damaged inputs (torn reads, token edits, lexical junk, non-ASCII) provide multi-highlight diagnostics, ties and non-ASCII text; synthetic diagnostic lists over a 4x4 position grid are pushed through both formatters under permutations; W1/W2 are also evaluated at API level on every line-boundary short read of every pool file and every lost line tail of every repository sample.",
   note="Weakest fit of the technique (configuration/emission-order swarming, no fault in the statement). Comparator laws are sampled through synthetic lists, not enumerated. Runs with a fatal file are excluded from W3 (statement silent). One open known finding: BAD_LEXEME is not a catalogue code."),
  "C15": dict(
   engine="cli-sim", category="exploration", design_ref="DESIGN.md 4.15",
-  technique="deterministic simulation of file discovery on a real scratch file system: seeded directory trees and argument lists, glob-order permutations, stub git peer with failures, vanishing files; oracle = independent walk of the model tree (M-discover / M-ignore)",
+  technique="deterministic simulation of file discovery on a real scratch file system: seeded directory trees and argument lists, glob-order permutations, stub git peer with failures and with a repository located through the environment, vanishing files, device links named like sources; oracle = independent walk of the model tree (M-discover / M-ignore)",
   text="Per run a seeded model tree (names with spaces, interior dots, look-alike suffixes, empty directories, non-C files, directories named like C files) is materialised under /dev/shm so that glob and pathlib are real; main() runs with 0..5 seeded arguments from a seeded cwd, with/without --use-gitignore against an in-process git model, every glob result permuted explicitly. The multiset of verdict basenames, rejection messages and abort status must equal what an independent walk of the model predicts. Separate configurations inject git rc 128, a missing git binary and a file vanishing between discovery and read (relaxed oracles).",
-  note="Trusted: SimGit (validated against the real git binary on a sample in every run, 50 scenarios in the thorough tier). Outside the domain, never flagged: hidden names, glob metacharacters, symlinks, unreadable directories."),
+  note="Trusted: SimGit (validated against the real git binary on a sample in every run, 50 scenarios in the thorough tier). Outside the domain, never flagged: hidden names, symbolic links to files or directories (those are exercised by C06's path spellings), unreadable directories."),
  "C16": dict(
   engine="cli-sim", category="exploration", design_ref="DESIGN.md 4.16",
   technique="deterministic simulation over the run configuration: the full 216-vector option lattice per sampled file and the input channel (disk read through the open seam vs argv); oracle relative to the reference vector run alone",
@@ -50,7 +50,7 @@ CHECKS = {
   note="Option lattice exhaustive per file; files sampled. Domain: contents without CR/NUL. Runs that reach no verdict under one of the two vectors are excluded from (a), as the statement says."),
  "C06": dict(
   engine="history-sim", category="exploration", design_ref="DESIGN.md 4.6",
-  technique="deterministic simulation: seeded search over histories of analyses in one process (API and CLI level), rule-directory listing permutations, hash seeds and path spellings; oracle = same outcome as alone in a pristine forked process",
+  technique="deterministic simulation: seeded search over histories of analyses in one process (API and CLI level), rule-directory listing permutations, interpreter configuration (hash seeds, optimisation level) in shard interpreters, path spellings incl. symbolic links, volume histories (>100 000 statements); oracle = same outcome as alone in a pristine forked process",
   text="Every simulated run executes in a child forked from a pristine zygote; a scenario is an explicit history of analyses sharing one process/registry. All ordered pairs over a 60-file stress pool (every reachable fatal raise site, internal-error site, state-stressing files) are enumerated; histories of length 3..8, CLI-level repeated main() invocations, path spellings, listing permutations of the rules directory (seam on os.listdir during a fresh import) and other PYTHONHASHSEEDs are sampled from the seed. The oracle compares terminal outcome and diagnostics (level, code, text, positions, order) with the same file analysed alone. A process state vector (recursion limit, rule tables, module-level lists) is probed before each op and used to bias the search toward successors of state-changing predecessors.",
   note="Sampling, not proof. Trusted: the in-process seams (os.listdir wrapper at import, norminette.file.open, glob order shim) and that a forked child of the booted zygote is a faithful 'fresh process'. Concurrency, synthetic aborts at arbitrary instructions and caller stack depth are outside the statement and not explored."),
 }
